@@ -56,3 +56,10 @@ pub assume_specification[ usize::div_ceil ](a: usize, b: usize) -> (r: usize)
 pub assume_specification<T>[ <[T] as core::convert::AsRef<[T]>>::as_ref ](s: &[T]) -> (r: &[T])
     ensures r@ == s@
 ;
+
+pub assume_specification<T, U, F: FnOnce(T) -> U>[ Option::<T>::map_or ](o: Option<T>, default: U, f: F) -> (r: U)
+    requires o is Some ==> f.requires((o->Some_0,)),
+    ensures
+        o is None ==> r == default,
+        o is Some ==> f.ensures((o->Some_0,), r),
+;
